@@ -385,3 +385,32 @@ def run(ctx):
         bl = block_of(cp, errs[0])
         ok = any(isinstance(s, ast.Assign) and ast.unparse(s.targets[0]) == flag for s in bl[2])
         ctx.ob('C20.e', ck + ':run_job:records-error', ok, '' if ok else 'the first error is delivered but not recorded: later completions are delivered too', cm.rel, errs[0].lineno)
+    _limiter_rule(ctx, repo)
+
+
+def _limiter_rule(ctx, repo):
+    ctx.decided.append('C20.f ProcessorSampler holds its concurrency-limiter slot until the job result has arrived: every await of a job result in _run_sweep_async / '
+                       'run_batch_async lies inside `async with self._concurrent_job_limiter`')
+    ctx.rule('C20.f', 'concurrency limit: in ProcessorSampler every `await <job>.results_async()` (and the await that creates the job) is lexically inside the '
+             '`async with self._concurrent_job_limiter` block, so no more than max_concurrent_jobs jobs are in flight', floor=2, style='MPT')
+    ps = repo.cls('cirq_google.engine.processor_sampler.ProcessorSampler')
+    parents = ps.mod.parents()
+    n_aw = 0
+    for mn, fn in ps.methods.items():
+        if not isinstance(fn, ast.AsyncFunctionDef):
+            continue
+        for aw in [n for n in ast.walk(fn) if isinstance(n, ast.Await) and isinstance(n.value, ast.Call)
+                   and call_name(n.value) in ('results_async', 'run_sweep_async') and not (isinstance(n.value.func, ast.Attribute) and isinstance(n.value.func.value, ast.Name)
+                                                                                              and n.value.func.value.id == 'self')]:
+            n_aw += 1
+            inside = False
+            cur = aw
+            while cur in parents and cur is not fn:
+                cur = parents[cur]
+                if isinstance(cur, ast.AsyncWith) and any('limiter' in ast.unparse(i.context_expr) for i in cur.items):
+                    inside = True
+            ctx.ob('C20.f', f'{ps.qual}.{mn}:{call_name(aw.value)}:inside-limiter', inside,
+                   '' if inside else f'`{ast.unparse(aw)[:60]}` runs after the limiter slot has been released: the slot only covers job creation, so more than '
+                   'max_concurrent_jobs jobs are in flight at once', ps.mod.rel, aw.lineno)
+    if n_aw == 0:
+        raise AnalysisError('ProcessorSampler: no awaited job creation / result found')
